@@ -127,9 +127,9 @@ def build(flavour="asan", quiet=False):
         for tag, (srcs, d, extra) in groups.items():
             for s in srcs:
                 futs.append(ex.submit(cc, os.path.join(d, s), objname(tag, s), extra))
-        # clean-room ISA-L stand-in
+        # clean-room ISA-L stand-in (verif-owned: not instrumented for ThreadSanitizer, its counters are not library state)
         futs.append(ex.submit(cc, os.path.join(VERIF, "sim", "isal", "isal_stub.c"),
-                              os.path.join(out, "obj", "isal_stub.o")))
+                              os.path.join(out, "obj", "isal_stub.o"), ["-fno-sanitize=thread"] if flavour == "tsan" else []))
         for f in futs:
             f.result()
 
@@ -156,9 +156,11 @@ def build(flavour="asan", quiet=False):
 
     # harness
     simdir = os.path.join(VERIF, "sim")
+    # tsan flavour: only the library is instrumented.  The harness (scheduler hand-off, shared World, accounting) stays
+    # invisible to ThreadSanitizer, which therefore sees the library's own synchronisation and nothing else.
+    hflags = [x for x in fl["cflags"] if not x.startswith("-O") and not (flavour == "tsan" and x.startswith("-fsanitize"))]
     cxxflags = [fl["cxx"], "-std=gnu++17", "-D_GNU_SOURCE", "-Wall", "-Wno-unused-function", "-fPIC"] + \
-        [x for x in fl["cflags"] if not x.startswith("-O")] + ["-O1"] + inc + ["-I" + simdir,
-                                                                              "-DVERIF_FLAVOUR=\"%s\"" % flavour]
+        hflags + ["-O1"] + inc + ["-I" + simdir, "-DVERIF_FLAVOUR=\"%s\"" % flavour]
     if flavour == "tsan":
         cxxflags.append("-DVERIF_TSAN=1")
     ccs = sorted(f for f in os.listdir(simdir) if f.endswith(".cc"))
@@ -166,9 +168,6 @@ def build(flavour="asan", quiet=False):
         futs = []
         for s in ccs:
             extra = []
-            if s == "baton.cc":
-                # the hand-off between parked threads must be invisible to ThreadSanitizer
-                extra = ["-fno-sanitize=thread"]
             futs.append(ex.submit(_run, cxxflags + extra + ["-c", os.path.join(simdir, s), "-o",
                                                             os.path.join(out, "obj", "sim-" + s[:-3] + ".o")], log))
         for f in futs:
@@ -207,7 +206,7 @@ def run_env(bdir, xor_flavour="sse2", extra=None):
                            "allocator_may_return_null=1:max_allocation_size_mb=4096:handle_abort=1:"
                            "symbolize=1:malloc_context_size=8")
     env["UBSAN_OPTIONS"] = "print_stacktrace=1:halt_on_error=1:exitcode=77"
-    env["TSAN_OPTIONS"] = "exitcode=0:report_signal_unsafe=0:halt_on_error=0:second_deadlock_stack=1"
+    env["TSAN_OPTIONS"] = "exitcode=0:report_signal_unsafe=0:halt_on_error=0:ignore_interceptors_accesses=1:history_size=4"
     env.pop("LIBERASURECODE_WRITE_LEGACY_CRC", None)
     if extra:
         env.update(extra)
